@@ -16,19 +16,34 @@ requests the mounted app serves:
 * `fold cfg`            : letter case is ignored unless `CaseSensitive` (the router lower-cases both
                           the registered path and the detection path).
 * `contains cfg k path` : the (folded) prefix is a string prefix of the (folded) path and ends where a
-                          path segment ends — the literal reading.
-* `coversPat cfg k path`: the prefix read as a route pattern: a segment `:name` stands for any
-                          non-empty path segment; everything else is literal; the covered part ends
-                          where a path segment ends. (Pattern language of the spec: whole-segment
-                          named parameters. Wildcards, optional / constrained / mid-segment parameters
-                          and escapes are outside — the driver rejects such prefixes.)
+                          path segment ends — the reading of a prefix that is plain text.
+* `isPattern k`         : the prefix holds one of the characters of fiber's route syntax (`:` `*` `+`
+                          `\`): it is a route pattern, not plain text.
+* `Cover`               : a reading of pattern prefixes — how many leading bytes of the path the prefix
+                          covers, ending where a path segment ends (`none` = the path is not inside).
+                          Two readings are defined here:
+    `coversPat cfg`       : the tokens reading, written from scratch: a segment `:name` stands for any
+                            non-empty path segment, everything else is literal. Pattern language:
+                            whole-segment named parameters.
+    `coversRouter chk cfg`: the router's own reading, for every pattern fiber accepts (wildcards,
+                            optional / constrained / mid-segment parameters, escaped characters):
+                            the shortest leading part of the path, ending on a segment boundary, that
+                            fiber's exported matcher `RoutePatternMatch` (the C02 model of it) accepts
+                            for the prefix. The path is read as the router reads a request path:
+                            trailing slashes do not count unless StrictRouting.
 * `candidates`          : mounted apps (not the root) that configured a handler and whose prefix contains
-                          the path literally or as a pattern.
-* `reach`               : how far into the path the prefix reaches — its own length when it contains
-                          the path literally, else what the pattern consumed. Nested mounts reach
-                          strictly further, so innermost = furthest reach; where a literal and a
-                          parameterised sibling reach equally far the literal (more specific) one is
-                          taken. No order of evaluation anywhere.
+                          the path.
+* `reach`               : twice the number of path bytes the prefix accounts for, plus one for a plain
+                          prefix. A nested mount reaches at least as far as the mounts around it, and
+                          its prefix extends theirs (mount.go: key = key of the app around it ++ its
+                          own prefix), so it sorts after them: innermost = furthest reach and, where
+                          that ties (an app mounted at "/" inside an app under a pattern prefix: the
+                          trailing slash is optional to the router), the prefix that sorts last.
+                          Where a plain and a pattern sibling reach equally far the plain (more
+                          specific) one is taken. Between overlapping siblings that still tie the
+                          sentence leaves the choice open ("a function of the request path and mount
+                          structure alone"); the same rule names one such function (`sortsBefore`).
+                          No order of evaluation anywhere.
 * `expected`            : the one outcome the sentence allows for a chain result.
 * `specViolation`       : oracle on the SET of outcomes the implementation produced for one case.
 * `specServerErr`       : errors before routing (no chain ran): which framework error the funnel is
@@ -64,6 +79,14 @@ one mount point to the router (the one registered first serves every request): s
 outside the property's "mount structure" (hypothesis `Nodup` in Props, rejected by the driver). -/
 def normKey (cfg : Cfg) (k : Bytes) : Bytes := if k = [] then [] else fold cfg (mountedAt k)
 
+/-- the mount point as registered: leading slash added; `""` (the app itself) stays `""`. Two apps
+whose keys agree in this form ("api" and "/api") are registered under one and the same route: such
+tables are outside the property's "mount structure" (hypothesis `Nodup` in Props, rejected by the
+driver). Keys that differ in letter case only, or in parameter names only, are one mount point to
+the router as well (the one registered first serves every request) but are told apart here: the
+prefix that sorts first is the designated one. -/
+def slashKey (k : Bytes) : Bytes := if k = [] then [] else mountedAt k
+
 /-- literal containment, compared as the router compares -/
 def contains (cfg : Cfg) (k path : Bytes) : Bool :=
   containsRaw (fold cfg (mountedAt k)) (fold cfg path)
@@ -94,52 +117,91 @@ def matchToks (cfg : Cfg) : List Tok → Bytes → Option Nat
     let v := p.takeWhile (· != 47)
     if v.isEmpty then none else (matchToks cfg ts (p.drop v.length)).map (· + v.length)
 
-/-- the prefix, read as a pattern, covers a leading part of the path that ends on a segment boundary:
-`some n` = it covers the first `n` bytes -/
+/-- the request path as the router reads it: trailing slashes do not count unless StrictRouting -/
+def routerPath (cfg : Cfg) (path : Bytes) : Bytes :=
+  if !cfg.strict && path.length > 1 && path.getLast? == some 47 then trimRight path 47 else path
+
+/-- the tokens reading: the prefix covers a leading part of the path (as the router reads it) that
+ends on a segment boundary: `some n` = it covers the first `n` bytes -/
 def coversPat (cfg : Cfg) (k path : Bytes) : Option Nat :=
-  match matchToks cfg (tokenize false false (mountedAt k)) path with
+  let rp := routerPath cfg path
+  match matchToks cfg (tokenize false false (mountedAt k)) rp with
   | none => none
   | some n =>
-    let rest := path.drop n
+    let rest := rp.drop n
     if rest.isEmpty || rest.head? == some 47 || (mountedAt k).getLast? == some 47 then some n else none
 
-def isCandidate (cfg : Cfg) (path : Bytes) (m : Mounted) : Bool :=
-  !m.pre.isEmpty && m.own.isSome && (contains cfg m.pre path || (coversPat cfg m.pre path).isSome)
+/-- the prefix is a route pattern: it holds `:`, `*`, `+` or the escape character `\` -/
+def isPattern (k : Bytes) : Bool := k.any fun c => c == 58 || c == 42 || c == 43 || c == 92
 
-def candidates (cfg : Cfg) (l : List Mounted) (path : Bytes) : List Mounted :=
-  l.filter (isCandidate cfg path)
+/-- a reading of pattern prefixes: key → path → number of leading path bytes covered -/
+abbrev Cover := Bytes → Bytes → Option Nat
 
-/-- twice the number of path bytes the prefix accounts for, plus one for a literal match -/
-def reach (cfg : Cfg) (path : Bytes) (m : Mounted) : Nat :=
-  if contains cfg m.pre path then 2 * (mountedAt m.pre).length + 1
-  else match coversPat cfg m.pre path with
-    | some n => 2 * n
-    | none => 0
+/-- `n` leading bytes of `p` end where a path segment ends -/
+def onBoundary (p : Bytes) (n : Nat) : Bool := n == p.length || p[n]? == some 47
 
-/-- the entry with the furthest reach -/
-def innermost (cfg : Cfg) (path : Bytes) : List Mounted → Option Mounted
+/-- the router's reading of a pattern prefix: the shortest leading part of the path (as the router
+reads it), ending where a segment ends, that `RoutePatternMatch(part, prefix, Config{CaseSensitive})`
+accepts. (StrictRouting is set in that call so that the part is taken as it is.) -/
+def coversRouter (chk : C02.Constraint → Bytes → Bool) (cfg : Cfg) : Cover := fun k path =>
+  let rp := routerPath cfg path
+  (List.range' 1 rp.length).find? fun n =>
+    onBoundary rp n && C02.routePatternMatch chk ⟨cfg.caseSensitive, true, false⟩ (rp.take n) (mountedAt k) == some true
+
+/-- how many leading bytes of the path the prefix covers: a pattern as `cov` reads it, plain text
+literally -/
+def covers (cfg : Cfg) (cov : Cover) (k path : Bytes) : Option Nat :=
+  if isPattern k then cov k path
+  else if contains cfg k path then some (mountedAt k).length else none
+
+def isCandidate (cfg : Cfg) (cov : Cover) (path : Bytes) (m : Mounted) : Bool :=
+  !m.pre.isEmpty && m.own.isSome && (covers cfg cov m.pre path).isSome
+
+def candidates (cfg : Cfg) (cov : Cover) (l : List Mounted) (path : Bytes) : List Mounted :=
+  l.filter (isCandidate cfg cov path)
+
+/-- twice the number of path bytes the prefix accounts for, plus one for a plain prefix -/
+def reach (cfg : Cfg) (cov : Cover) (path : Bytes) (m : Mounted) : Nat :=
+  match covers cfg cov m.pre path with
+  | some n => if isPattern m.pre then 2 * n else 2 * n + 1
+  | none => 0
+
+/-- `a` sorts before `c` (byte-wise dictionary order) -/
+def sortsBefore : Bytes → Bytes → Bool
+  | [], [] => false
+  | [], _ :: _ => true
+  | _ :: _, [] => false
+  | a :: s, c :: t => if a = c then sortsBefore s t else a < c
+
+/-- `x` is taken rather than `m`: it reaches further, or equally far and its prefix sorts last -/
+def preferred (cfg : Cfg) (cov : Cover) (path : Bytes) (x m : Mounted) : Bool :=
+  reach cfg cov path x > reach cfg cov path m ||
+    (reach cfg cov path x == reach cfg cov path m && sortsBefore (mountedAt m.pre) (mountedAt x.pre))
+
+/-- the entry with the furthest reach (among equals: the prefix that sorts last) -/
+def innermost (cfg : Cfg) (cov : Cover) (path : Bytes) : List Mounted → Option Mounted
   | [] => none
   | m :: t =>
-    match innermost cfg path t with
+    match innermost cfg cov path t with
     | none => some m
-    | some x => if reach cfg path x > reach cfg path m then some x else some m
+    | some x => if preferred cfg cov path x m then some x else some m
 
-def selectSpec (cfg : Cfg) (l : List Mounted) (path : Bytes) : Option Own :=
-  (innermost cfg path (candidates cfg l path)).bind (·.own)
+def selectSpec (cfg : Cfg) (cov : Cover) (l : List Mounted) (path : Bytes) : Option Own :=
+  (innermost cfg cov path (candidates cfg cov l path)).bind (·.own)
 
 /-- the handler the sentence designates: the innermost configured mounted app's, else the root's
 (`none` = the root did not configure one: DefaultErrorHandler) -/
-def designated (cfg : Cfg) (l : List Mounted) (rootOwn : Option Own) (path : Bytes) : Option Own :=
-  match selectSpec cfg l path with
+def designated (cfg : Cfg) (cov : Cover) (l : List Mounted) (rootOwn : Option Own) (path : Bytes) : Option Own :=
+  match selectSpec cfg cov l path with
   | some o => some o
   | none => rootOwn
 
-def expected (cfg : Cfg) (l : List Mounted) (rootOwn : Option Own) (path : Bytes) (chain : Option Err) :
+def expected (cfg : Cfg) (cov : Cover) (l : List Mounted) (rootOwn : Option Own) (path : Bytes) (chain : Option Err) :
     Option Outcome :=
   match chain with
   | none => none
   | some e =>
-    match designated cfg l rootOwn path with
+    match designated cfg cov l rootOwn path with
     | none => some ⟨[.default], (match e with | .fiber c _ => c | .plain _ => 500), e.msg⟩
     | some o =>
       if o.fails then some ⟨[.custom o.id], 500, b "Internal Server Error"⟩
@@ -160,9 +222,9 @@ def specServerErr (e : SrvErr) : Err :=
   | false, false, false, false, false =>
     if (indexOf e.msg (b "timeout")).isSome then .fiber 408 (b "Request Timeout") else .fiber 400 e.msg
 
-def expectedServer (cfg : Cfg) (l : List Mounted) (rootOwn : Option Own) (path : Bytes) (e : SrvErr) :
+def expectedServer (cfg : Cfg) (cov : Cover) (l : List Mounted) (rootOwn : Option Own) (path : Bytes) (e : SrvErr) :
     Option Outcome :=
-  expected cfg l rootOwn path (some (specServerErr e))
+  expected cfg cov l rootOwn path (some (specServerErr e))
 
 /-- one observed evaluation: the error that entered the funnel (as the outermost middleware saw it
 come back from the chain, or — server errors — as the spec maps what fasthttp handed over), how
@@ -178,12 +240,12 @@ structure Seen where
 def customCalls (o : Outcome) : List (Nat × Nat) :=
   o.ran.filterMap fun r => match r with | .custom i => some (i, 1) | .default => none
 
-def specViolation (cfg : Cfg) (l : List Mounted) (rootOwn : Option Own) (path : Bytes) (seen : List Seen) :
+def specViolation (cfg : Cfg) (cov : Cover) (l : List Mounted) (rootOwn : Option Own) (path : Bytes) (seen : List Seen) :
     Option String :=
   match seen with
   | [] => some "no-observation"
   | [s] =>
-    match expected cfg l rootOwn path s.chain with
+    match expected cfg cov l rootOwn path s.chain with
     | none => if s.calls.isEmpty then none else some "exactly-once: an error handler ran although the chain returned no error"
     | some o =>
       if s.calls != customCalls o then
